@@ -11,6 +11,47 @@ use robopoker::gameplay::ply::Turn;
 use robopoker::gameplay::seat::State;
 use rpharness::Rng;
 
+/// "ask the same question under different ambient conditions": a discarding logger whose level
+/// can be switched to Trace (code guarded by `log_enabled!` then runs), and fresh threads
+pub mod ambient {
+    struct Discard;
+    impl log::Log for Discard {
+        fn enabled(&self, _: &log::Metadata) -> bool {
+            true
+        }
+        fn log(&self, r: &log::Record) {
+            // format the arguments (Display impls of the engine run), then drop the text
+            let _ = std::hint::black_box(format!("{}", r.args()).len());
+        }
+        fn flush(&self) {}
+    }
+    static LOGGER: Discard = Discard;
+    /// install the logger once; logging stays off until `with_trace`
+    pub fn install() {
+        let _ = log::set_logger(&LOGGER);
+        log::set_max_level(log::LevelFilter::Off);
+    }
+    /// run `f` with TRACE logging enabled (f must not unwind: wrap panicking calls in `catch`)
+    pub fn with_trace<T>(f: impl FnOnce() -> T) -> T {
+        log::set_max_level(log::LevelFilter::Trace);
+        let r = f();
+        log::set_max_level(log::LevelFilter::Off);
+        r
+    }
+    /// run `f` on a freshly spawned thread (fresh thread-locals: rng, draw-index override)
+    pub fn in_thread<T: Send + 'static>(f: impl FnOnce() -> T + Send + 'static) -> Option<T> {
+        std::thread::spawn(f).join().ok()
+    }
+}
+
+/// a card set containing card `n` verbatim (`Hand::from(u64)` would mask it away when it is not a
+/// card of the configured deck), plus the cards of `rest`
+pub fn hand_with_raw_card(rest: u64, n: u8) -> Hand {
+    use robopoker::cards::card::Card;
+    let extra = Hand::from(Card::from(n));
+    if bits(hand(rest)) & bits(extra) != 0 { extra } else { Hand::add(hand(rest), extra) }
+}
+
 pub fn hand(mask: u64) -> Hand {
     Hand::from(mask)
 }
@@ -66,6 +107,20 @@ pub fn state_line(g: &Game) -> String {
         state_char(s[0].0), state_char(s[1].0), g.verif_ticker(), g.street() as isize,
         turn_tok(g.turn()), board_bits(g), legal
     )
+}
+
+/// `state_line` of a state that may be corrupt (reached through a transition that should not
+/// exist): rendering must not take the harness down
+pub fn safe_state_line(g: &Game) -> String {
+    let gg = *g;
+    rpharness::catch(move || state_line(&gg)).unwrap_or_else(|| {
+        let gg = *g;
+        rpharness::catch(move || {
+            let s = gg.verif_seats();
+            format!("corrupt state: pot {} stacks [{}, {}] stakes [{}, {}] spent [{}, {}] ticker {} (rendering the rest panics)",
+                gg.pot(), s[0].1, s[1].1, s[0].2, s[1].2, s[0].3, s[1].3, gg.verif_ticker())
+        }).unwrap_or_else(|| "corrupt state (every accessor panics)".into())
+    })
 }
 
 /// a forced deal: the two holes and the cards of the three board streets
